@@ -7,7 +7,8 @@ PROP = dict(
                 "blocks are sealed with the reference root so any disagreement surfaces as a rejected valid block. Samples, no proof."),
     rule=("(a) rapid state machine put/overwrite/delete/zero-absent/commit/reopen/hash/get on core/trie and core/trie2 at heights 251/64/8/3, "
           "Pedersen and Poseidon, root compared with ref.MPT after every hash/commit plus a permuted-insertion-order re-run; "
-          "(b) generated chains stored through SanityCheckNewHeight+Store (reference-sealed) and through Finalise/Simulate on both backends; "
+          "(b) generated chains stored through SanityCheckNewHeight+Store (reference-sealed) and through Finalise/Simulate on both backends, "
+          "the trie2 node's contract records optionally rewritten between blocks in the storage-root-less format the head-state migration writes; "
           "(c) temporary-trie backends for block commitments. Non-trivial = structural trie event (edge split, collapse, re-insert after delete, "
           "zero write to absent key, reopen between updates) / multi-block chain with a structural diff; distinct = SHA-256 of the rendered op sequence."),
     assumptions=["felt arithmetic and Pedersen/Poseidon primitives trusted (reference model calls them)",
